@@ -10,7 +10,9 @@ git -C /repo worktree add -q --detach $wt HEAD || exit 2
 cleanup() { git -C /repo worktree remove --force $wt; }
 trap cleanup EXIT
 cd $wt
-run() { PYTHONPATH=$wt PYTHONDONTWRITEBYTECODE=1 timeout 600 /venv/bin/python "$@"; }
+# a change to the SciPy wrappers (names H-*) is demonstrated under the tooling interpreter: the repository's own has no SciPy
+case "$name" in H-*) demopy=/opt/veriftools/pyvenv/bin/python;; *) demopy=/venv/bin/python;; esac
+run() { PYTHONPATH=$wt PYTHONDONTWRITEBYTECODE=1 timeout 600 $demopy "$@"; }
 run $src/demo.py > /tmp/confirm-clean.out 2>&1; rc_clean=$?
 git apply $src/patch.diff || { echo "PATCH DOES NOT APPLY"; exit 1; }
 run $src/demo.py > /tmp/confirm-mut.out 2>&1; rc_mut=$?
